@@ -51,6 +51,33 @@ fn hook_delay(_p: &Pending) -> Directive {
     Directive::Proceed
 }
 
+/// Delay in front of the arena's plain zeroing too (between the atomic access that preceded it and the memset).
+fn hook_zeroed_delay(_addr: usize, _len: usize) {
+    if !DELAY_ON.load(Ordering::Relaxed) {
+        return;
+    }
+    DELAY_RNG.with(|r| {
+        let mut x = r.get();
+        if x == 0 {
+            return;
+        }
+        x ^= x << 13;
+        x ^= x >> 7;
+        x ^= x << 17;
+        r.set(x);
+        match x % 8 {
+            0 => {
+                for _ in 0..(x >> 8) % 2000 {
+                    std::hint::spin_loop();
+                }
+            }
+            1 | 2 => std::thread::yield_now(),
+            3 if cfg!(not(miri)) && (x >> 20) % 4 == 0 => std::thread::sleep(std::time::Duration::from_micros((x >> 30) % 80)),
+            _ => {}
+        }
+    });
+}
+
 struct SendBox(Box<dyn Handle>);
 unsafe impl Send for SendBox {}
 
@@ -202,7 +229,7 @@ pub fn child_main(args: &Args) -> i32 {
     let fam = args.str("family", "A");
     let mut out = Out::new();
     crate::seq::install_panic_capture();
-    vhk::install(Some(hook_delay), None, None);
+    vhk::install(Some(hook_delay), None, Some(hook_zeroed_delay));
     let from = args.u64("from", 0);
     let count = args.u64("count", 20);
     let stride = args.u64("stride", 1);
